@@ -14,7 +14,7 @@ from .. import core
 from .. import coqrun as cq
 from .. import gen
 
-TECHNIQUE = ('Coq proofs about bounds-checked twins of the kernel models (unbounded for the CSR relaxation sweeps, bounded for '
+TECHNIQUE = ('Coq proofs about bounds-checked twins of the kernel models (unbounded for the CSR relaxation sweeps, aggregation, BFS and '
              'the Ruge-Stuben buckets) + sanitizer-instrumented execution of all 66 kernels as correspondence / failing-input search')
 LEVEL_TEXT = ('Kernel-checked theorems (Props/C17.v) about CHECKED twins of the kernel models, in which every array access goes '
               'through a bounds-checked get/set and the result is None at the first access outside an array: for EVERY '
@@ -24,16 +24,19 @@ LEVEL_TEXT = ('Kernel-checked theorems (Props/C17.v) about CHECKED twins of the 
               'bit-exact kernel models of C09 return; naive and standard aggregation (the -n sentinel arithmetic, ids shifted in place, y written at next-1 / next) '
               'likewise for every structurally valid CSR graph of any size, symmetric or not; breadth_first_search likewise (order[N] is written '
               'only while fewer than n vertices are labelled, any seed in range); for the Ruge-Stuben first pass (lambda buckets sized '
-              'max(2*lambda_max, n+1), the "//invalid write!" site) the same holds on all 133 strength patterns (directed on '
-              '<= 3 vertices, symmetric on 4) and all influence vectors in {0,1,3}^n (bound stated in the theorem, decided by '
-              'vm_compute over the complete enumeration).  The twins are tied to the working-tree kernels on both sides: on '
+              'max(2*lambda_max, n+1), the "//invalid write!" site) the same holds for every pair of valid CSR patterns S, T '
+              '(any size, not necessarily transposes of each other) and every nonnegative influence vector, by the bucket '
+              'invariant kept through the counting sort, incr_lambda, decr_lambda and the removal of the top node (and, as a '
+              'cross-check, on all 133 small patterns x influence vectors in {0,1,3}^n by vm_compute); the second pass of direct and '
+              'of classical interpolation produces for every row exactly the entries the first pass reserved (P.indices / P.data '
+              'are allocated with P.indptr[n] entries by the callers), for any number of rows.  The twins are tied to the working-tree kernels on both sides: on '
               'valid inputs their output equals the kernel output bit for bit, and on inputs with an index one step outside an '
               'array they return None exactly where AddressSanitizer stops the real kernel.  For all other kernels the '
               'property is decided by execution only: every one of the 66 exported kernels is run from the working-tree '
               'headers under AddressSanitizer + UndefinedBehaviorSanitizer + LeakSanitizer, through the Python callers (so '
               'every buffer is sized as they size it), over the complete enumeration of small graphs and structured random '
               'CSR/BSR inputs, each run under a time limit.')
-LEVEL_NOTE = ('Proof covers 6 of 66 kernels (5 unbounded, 1 bounded).  For the other 60 the sanitizer run is an oracle, not a '
+LEVEL_NOTE = ('Proof covers 7 of 66 kernels (gauss_seidel, sor_gauss_seidel, jacobi, naive_aggregation, standard_aggregation, breadth_first_search, rs_cf_splitting; all unbounded; plus the slot-count theorem for rs_direct / rs_classical interpolation pass 1/2 at the level of the C11 row models).  For the other 59 the sanitizer run is an oracle, not a '
               'proof; it is the search that produces failing inputs.  Memory safety of the C++ text itself is never proved: '
               'the theorems are about Gallina twins tied to the code by correspondence.  Lloyd clustering is exercised with '
               'positive weights only (its documented domain): zero-weight edges lead to duplicate centres and a heap '
@@ -48,8 +51,7 @@ RULE += (' '
          'Corpus incl. dense-GMRES AIR paths (maxiter below / at the local size, CSR and BSR).')
 TRUSTED = ['GCC 12 AddressSanitizer / UndefinedBehaviorSanitizer / LeakSanitizer runtimes (oracle side)',
            'NumPy allocates each array with malloc of its exact byte size (so the red zones start at the array ends)']
-PARTIAL = ['60 of 66 kernels: sanitizer oracle only, no theorem',
-           'rs_cf_splitting: bounded theorem (133 patterns x 3^n influence vectors)',
+PARTIAL = ['59 of 66 kernels: sanitizer oracle only, no theorem',
            'termination: time limit per run, plus structural recursion of the models; no termination theorem for the C++ loops']
 REFUTED = []
 HEADER = ('From Coq Require Import ZArith List Bool PrimFloat.\nImport ListNotations.\n'
